@@ -452,6 +452,12 @@ read_chunk()
 {
     // TODO: enforce chunk alignment!
 
+    if (reached_eof_chunk) {
+        // the EOF chunk must be the last chunk of the file
+        state_ = ReadState::ErrorInvalidFile;
+        error_msg_ = "Data after EOF chunk";
+        return;
+    }
     ChunkHeader header;
     auto decoder = stream_.make_decoder(ovmb_size<ChunkHeader>);
     read(decoder, header);
